@@ -1659,7 +1659,7 @@ def f_constructTxIn : Stmt :=
     .ite (.and (nz "perr") (nz "perr.notfound")) (.invoke Fn.existsUnminedTx) .skip ;;
     ifR (nz "perr") (.set "err" (.k E.invalidParameter)) ;;
     D "prevTx" "TxOut" ;;
-    ifR (.atom (.le "prevTx.TxOut" "vout")) (.set "err" (.k E.invalidParameter)) ;;
+    ifR (.atom (.le "prevTx.TxOut" "vout")) (.set "err" (.k E.invalidIndex)) ;;
     IX "prevTx.TxOut[txIn.PreviousOutPoint.Index]" "vout" "prevTx.TxOut" ;;
     .call "prevTx.TxOut[i]" ["prevTxOut"] (always [.nz "prevTxOut"]) ;;
     D "prevTxOut" "PkScript" ;;
@@ -1669,13 +1669,12 @@ def f_constructTxIn : Stmt :=
     D "pks" "StdEncodeAddress" ;;
     .call "am.Address(pks.StdEncodeAddress())" ["aerr"] [] ;;
     ifR (nz "aerr") (.set "err" (.k E.noAddressInWallet)) ;;
+    -- prevHeight: the block of a mined previous transaction, tip+1 for an unconfirmed one
+    .ite (nz "block") (D "block" "Height") (
+      .invoke Fn.SyncedTo ;;
+      ifR (nz "st.err") (.set "err" (.v "st.err"))) ;;
     flag "pks.IsStaking()" "cti.stk" ;;
-    .ite (nz "cti.stk") .skip (
-      flag "pks.IsBinding()" "cti.bind" ;;
-      .ite (nz "cti.bind") (
-        .ite (nz "block") (D "block" "Height") (
-          .invoke Fn.SyncedTo ;;
-          ifR (nz "st.err") (.set "err" (.v "st.err")))) .skip) ;;
+    .ite (nz "cti.stk") .skip (flag "pks.IsBinding()" "cti.bind") ;;
     .call "totalValue.AddInt" ["aerr"] [] ;;
     ifR (nz "aerr") (.set "err" (.k E.invalidAmount))) ;;
   -- one sender was appended per input
